@@ -16,7 +16,9 @@
      BadIndex          refusal: asking a bounds-defined (axial) innermost grid for a negative index raises
                        IndexError and changes nothing                   <- StructuredGrid._centroidByBounds
    Transcribed recursion (locations.py):
-     GlobalCentre(l) = Centre(grid l, idx l) + GlobalCentre(l-1)        getGlobalCoordinates
+     GlobalCentre(l) = LocalXYZ(grid l, idx l) + GlobalCentre(l-1)      getGlobalCoordinates()
+     NativeLen/Ang(l) = native centre of level l + Native(l-1)          getGlobalCoordinates(nativeCoords=True): the
+                        flag is forwarded to every parent, so a theta-R-Z parent contributes (theta, r, z)
      GlobalBase(l)   = GlobalBase(l-1) + Base(grid l, idx l)            getGlobalCellBase   (bases add to bases)
      GlobalTop(l)    = GlobalTop(l-1)  + Top(grid l, idx l)             getGlobalCellTop
         level 0 is the core's CoordinateLocation: centre = base = top = Origin
@@ -38,7 +40,9 @@ CONSTANTS Depth,      \* maximal nesting depth (<= 3)
 VARIABLES chain, rooted, act, err
 vars == <<chain, rooted>>
 
-KindNames == {"hexF", "hexC", "cartT", "cartO", "ax"}
+\* "ax": three cells with explicit bounds; "ax1"/"ax2": AxialGrid.fromNCells(1)/(2) (a one-block assembly is still an
+\* axial-only grid); "trz": a theta-R-Z core grid (outermost level only), single z cell like armi builds it
+KindNames == {"hexF", "hexC", "cartT", "cartO", "ax", "ax1", "ax2", "trz"}
 \* sizes per nesting level, in units u (0.01 cm): core 16.8 cm, assembly-internal 1.2 cm, pin 0.24 cm ...
 PH(l) == IF l = 1 THEN 1680 ELSE IF l = 2 THEN 120 ELSE 24
 CW(l) == IF l = 1 THEN 2100 ELSE IF l = 2 THEN 128 ELSE 12
@@ -55,12 +59,21 @@ GridOf(kn, l) ==
     ELSE IF kn = "cartO" THEN [kind |-> "cart", var |-> "offset", p |-> <<CW(l), CH(l)>>,
                          off |-> <<CW(l) \div 2, CH(l) \div 2, 0>>,
                          zb |-> NoB, tb |-> NoB, rb |-> NoB, rings |-> 3, sym |-> "", geom |-> ""]
-    ELSE [kind |-> "ax", var |-> "", p |-> <<0, 0>>, off |-> <<0, 0, 0>>,
+    ELSE IF kn = "ax" THEN [kind |-> "ax", var |-> "", p |-> <<0, 0>>, off |-> <<0, 0, 0>>,
           zb |-> ZB(l), tb |-> NoB, rb |-> NoB, rings |-> 0, sym |-> "", geom |-> ""]
+    ELSE IF kn = "ax1" THEN [kind |-> "ax", var |-> "unit", p |-> <<0, 0>>, off |-> <<0, 0, 0>>,
+          zb |-> <<0, 100>>, tb |-> NoB, rb |-> NoB, rings |-> 0, sym |-> "", geom |-> ""]
+    ELSE IF kn = "ax2" THEN [kind |-> "ax", var |-> "unit", p |-> <<0, 0>>, off |-> <<0, 0, 0>>,
+          zb |-> <<0, 100, 200>>, tb |-> NoB, rb |-> NoB, rings |-> 0, sym |-> "", geom |-> ""]
+    ELSE [kind |-> "trz", var |-> "", p |-> <<0, 0>>, off |-> <<0, 0, 0>>,
+          zb |-> <<0, 0>>, tb |-> <<1, 3, 5, 7>>, rb |-> <<0, 2000, 2500, 3000>>, rings |-> 0, sym |-> "", geom |-> ""]
 IdxSeq(kn) == IF kn \in {"hexF", "hexC"} THEN << <<1, 0, 0>>, <<-1, 2, 0>>, <<0, -2, 0>> >>
               ELSE IF kn \in {"cartT", "cartO"} THEN << <<1, 2, 0>>, <<-2, 0, 0>>, <<0, -1, 0>> >>
-              ELSE << <<0, 0, 0>>, <<0, 0, 2>>, <<0, 0, 1>> >>
-IdxSet(kn) == {IdxSeq(kn)[t] : t \in 1..NIdx}
+              ELSE IF kn = "ax" THEN << <<0, 0, 0>>, <<0, 0, 2>>, <<0, 0, 1>> >>
+              ELSE IF kn = "ax1" THEN << <<0, 0, 0>> >>
+              ELSE IF kn = "ax2" THEN << <<0, 0, 1>>, <<0, 0, 0>> >>
+              ELSE << <<0, 1, 0>>, <<2, 0, 0>>, <<1, 2, 0>> >>          \* trz: (theta, r, z) indices
+IdxSet(kn) == {IdxSeq(kn)[t] : t \in 1..(IF Len(IdxSeq(kn)) < NIdx THEN Len(IdxSeq(kn)) ELSE NIdx)}
 CoreAt == << <<500, 0>>, <<-300, 0>>, <<1000, 0>> >>         \* the core's CoordinateLocation (5.0, -3.0, 10.0) cm
 \* IndexLocation.parentLocation looks at the owner of the grid only if that owner itself has a parent: a core that
 \* hangs under a reactor contributes its own location, a free-standing core (rooted = FALSE) does not.
@@ -73,12 +86,27 @@ Idx(l) == chain[l].idx
 GC(ch, l)   == GridOf(ch[l].kn, l)
 
 (* ------------------------------------ transcribed recursion ------------------------------------ *)
+\* local coordinates as getLocalCoordinates() gives them: x,y,z (a theta-R-Z grid converts its native centre)
+LocalXYZ(gr, idx) == IF gr.kind = "trz" THEN TrzXYZ(gr, idx) ELSE Centre(gr, idx)
+\* a native vector of a theta-R-Z grid has an ANGLE as first component (eighths of a turn); sums over levels are
+\* therefore kept as a length part (units u) and an angle part (first component only)
+LenPart(gr, V) == IF gr.kind = "trz" THEN <<Q0, V[2], V[3]>> ELSE V
+AngPart(gr, V) == IF gr.kind = "trz" THEN V[1][1] ELSE 0
 RECURSIVE GlobalCentreOf(_, _)
-GlobalCentreOf(ch, l) == IF l = 0 THEN Origin ELSE VAdd(Centre(GC(ch, l), ch[l].idx), GlobalCentreOf(ch, l - 1))
+GlobalCentreOf(ch, l) == IF l = 0 THEN Origin ELSE VAdd(LocalXYZ(GC(ch, l), ch[l].idx), GlobalCentreOf(ch, l - 1))
+\* getGlobalCoordinates(nativeCoords=True): every level contributes its NATIVE centre (the flag is passed up)
+RECURSIVE NativeLen(_), NativeAng(_), BaseLen(_), BaseAng(_), TopLen(_), TopAng(_)
+NativeLen(l) == IF l = 0 THEN Origin ELSE VAdd(LenPart(G(l), Centre(G(l), Idx(l))), NativeLen(l - 1))
+NativeAng(l) == IF l = 0 THEN 0 ELSE AngPart(G(l), Centre(G(l), Idx(l))) + NativeAng(l - 1)
+\* getGlobalCellBase / getGlobalCellTop add getCellBase / getCellTop, which are native (bounds values) for theta-R-Z
+BaseLen(l) == IF l = 0 THEN Origin ELSE VAdd(BaseLen(l - 1), LenPart(G(l), Base(G(l), Idx(l))))
+BaseAng(l) == IF l = 0 THEN 0 ELSE BaseAng(l - 1) + AngPart(G(l), Base(G(l), Idx(l)))
+TopLen(l)  == IF l = 0 THEN Origin ELSE VAdd(TopLen(l - 1), LenPart(G(l), Top(G(l), Idx(l))))
+TopAng(l)  == IF l = 0 THEN 0 ELSE TopAng(l - 1) + AngPart(G(l), Top(G(l), Idx(l)))
 GlobalCentre(l) == GlobalCentreOf(chain, l)
 RECURSIVE GlobalBase(_), GlobalTop(_)
-GlobalBase(l)   == IF l = 0 THEN Origin ELSE VAdd(GlobalBase(l - 1), Base(G(l), Idx(l)))
-GlobalTop(l)    == IF l = 0 THEN Origin ELSE VAdd(GlobalTop(l - 1), Top(G(l), Idx(l)))
+GlobalBase(l)   == BaseLen(l)          \* (+ BaseAng(l) eighths of a turn in the first component)
+GlobalTop(l)    == TopLen(l)
 AddValidAt(l) == l >= 2 /\ AddingIsValid(G(l), G(l - 1))
 Complete(l) == IF AddValidAt(l) THEN IAdd(Idx(l), Idx(l - 1)) ELSE Idx(l)
 RECURSIVE GridRingPos(_, _)
@@ -88,7 +116,7 @@ RingPosAt(l) == GridRingPos(l, Complete(l))
 
 (* ------------------------------------ actions ------------------------------------ *)
 Init == chain = <<>> /\ rooted \in BOOLEAN /\ act = [n |-> "Init"] /\ err = ""
-Descend(kn, idx) == /\ D < Depth
+Descend(kn, idx) == /\ D < Depth /\ (kn = "trz" => D = 0)
                     /\ chain' = Append(chain, [kn |-> kn, idx |-> idx]) /\ UNCHANGED rooted
                     \* the action carries the descriptor of the new grid so that the harness builds exactly that grid
                     /\ act' = [n |-> "Descend", kn |-> kn, idx |-> idx, grid |-> GridOf(kn, D + 1)] /\ err' = ""
@@ -111,7 +139,7 @@ Next == \/ \E kn \in KindNames : \E idx \in IdxSet(kn) : Descend(kn, idx)
 TypeOK == /\ D <= Depth /\ rooted \in BOOLEAN
           /\ \A l \in 1..D : chain[l].kn \in KindNames /\ chain[l].idx \in IdxSet(chain[l].kn)
 \* global = origin + sum of the locals of all enclosing levels (adding the parent's coordinates, at every depth)
-SumLocals(l) == FoldLeft(LAMBDA acc, m : VAdd(acc, Centre(G(m), Idx(m))), Origin, [m \in 1..l |-> m])
+SumLocals(l) == FoldLeft(LAMBDA acc, m : VAdd(acc, LocalXYZ(G(m), Idx(m))), Origin, [m \in 1..l |-> m])
 GlobalIsSumOfLocals == \A l \in 0..D : GlobalCentre(l) = SumLocals(l)
 \* indices add for axial-in-radial nesting only, and then every axis is defined exactly once
 CompleteIndicesRule ==
@@ -123,23 +151,28 @@ CompleteIndicesRule ==
         /\ (l = 1) => Complete(l) = Idx(l)
 CellsAreAffine == \A l \in 1..D : ValidIdx(G(l), Idx(l)) /\ ThmCellIsAffine(G(l), Idx(l))
 \* a cell's global box contains its global centre half way: bases add to bases, tops to tops
-GlobalBoxAroundCentre == \A l \in 0..D : VAdd(GlobalBase(l), GlobalTop(l)) = VAdd(GlobalCentre(l), GlobalCentre(l))
+\* (stated on native coordinates: with a theta-R-Z level base/top are native while the default centre is x,y,z)
+GlobalBoxAroundCentre == \A l \in 0..D : /\ VAdd(BaseLen(l), TopLen(l)) = VAdd(NativeLen(l), NativeLen(l))
+                                          /\ BaseAng(l) + TopAng(l) = 2 * NativeAng(l)
+\* without a theta-R-Z level native and x,y,z coordinates are the same thing
+NativeIsXYZWithoutTrz == \A l \in 0..D : (\A m \in 1..l : G(m).kind # "trz") => (NativeLen(l) = GlobalCentre(l) /\ NativeAng(l) = 0)
 \* moving object m to another cell shifts the whole subtree below it by the same vector and nothing above it
 \* (stated over every move that is possible in the current state)
 MoveShiftsSubtree ==
     \A m \in 1..D : \A idx \in IdxSet(chain[m].kn) :
         LET moved == [chain EXCEPT ![m].idx = idx]
-            delta == VSub(Centre(G(m), idx), Centre(G(m), Idx(m)))
+            delta == VSub(LocalXYZ(G(m), idx), LocalXYZ(G(m), Idx(m)))
         IN \A l \in 0..D : GlobalCentreOf(moved, l) = (IF l >= m THEN VAdd(GlobalCentre(l), delta) ELSE GlobalCentre(l))
 RefusalsChangeNothing == [][err' # "" => UNCHANGED vars]_<<chain, rooted, act, err>>
 
 (* ------------------------------------ observation ------------------------------------ *)
 LevelObs(l) == [kn       |-> chain[l].kn,
                 idx      |-> Idx(l),
-                local    |-> Centre(G(l), Idx(l)),
+                local    |-> LocalXYZ(G(l), Idx(l)),
                 global   |-> GlobalCentre(l),
-                gbase    |-> GlobalBase(l),
-                gtop     |-> GlobalTop(l),
+                gnative  |-> NativeLen(l),   gnativeAng |-> NativeAng(l),     \* getGlobalCoordinates(nativeCoords=True)
+                gbase    |-> BaseLen(l),     gbaseAng   |-> BaseAng(l),
+                gtop     |-> TopLen(l),      gtopAng    |-> TopAng(l),
                 complete |-> Complete(l),
                 ringpos  |-> RingPosAt(l),
                 addvalid |-> AddValidAt(l),
